@@ -26,6 +26,7 @@ def parseCallNo (t : String) : Option Nat :=
 def parseLabel (toks : List String) : Option Label :=
   match toks with
   | ["ecall"] => some .ecall
+  | ["ecallbad"] => some .ecallbad
   | ["enotify"] => some .enotify
   | ["ectx", c] => (parseCallNo c).map .ectx
   | ["eclose"] => some .eclose
@@ -89,7 +90,7 @@ def parseRTok (r : String) : RTok :=
     | some p => .ok p
     | none => .bad r
   else if r == "closed" then .closed else if r == "read" then .read else if r == "broken" then .broken
-  else if r == "rejected" then .rejected else if r == "ctx" then .ctx else if r == "panic" then .panic
+  else if r == "rejected" then .rejected else if r == "ctx" then .ctx else if r == "panic" then .panic else if r == "marshal" then .marshal
   else .other r
 
 def parseXTok (t : String) : Option (Nat × XCause) :=
@@ -146,6 +147,8 @@ def Clause.text : Clause → String
   | .c01Blocked n => s!"C01: call c{n} is still blocked in Await although the connection has terminated (done closed)"
   | .c01Late n r => s!"C01: call c{n} started after termination ended with {rtokStr r}, not with a closed-connection error"
   | .c01RegAfterRx oc => s!"C01: call(s) {",".intercalate (oc.map fun n => s!"c{n}")} are registered although the reader has failed: nothing can complete them any more (a call started after the connection broke must fail at once)"
+  | .c01StillRegistered n => s!"C01: call c{n} has returned to its caller but is still registered: a later EOF/Close completes it a second time"
+  | .c01MarshalForeign n => s!"C01: call c{n} ended with a marshalling error although its parameters can be encoded"
   | .c02Twice r => s!"C02: request r{r} answered more than once"
   | .c02NotifAnswered r => s!"C02: notification r{r} received a response"
   | .c03BeforeSync j i => s!"C03: handler of r{j} started before the synchronous handler of earlier r{i} finished"
